@@ -17,7 +17,6 @@ package pubsub
 import (
 	"github.com/gobwas/glob"
 	"github.com/tidwall/resp"
-	"log"
 	"net"
 	"sync"
 )
@@ -27,7 +26,6 @@ type Channel struct {
 	pattern          glob.Glob                // Compiled glob pattern. This is nil if the channel is not a pattern channel.
 	subscribersRWMut sync.RWMutex             // RWMutex to concurrency control when accessing channel subscribers.
 	subscribers      map[*net.Conn]*resp.Conn // Map containing the channel subscribers.
-	messageChan      *chan string             // Messages published to this channel will be sent to this channel.
 }
 
 // WithName option sets the channels name.
@@ -46,14 +44,11 @@ func WithPattern(pattern string) func(channel *Channel) {
 }
 
 func NewChannel(options ...func(channel *Channel)) *Channel {
-	messageChan := make(chan string, 4096)
-
 	channel := &Channel{
 		name:             "",
 		pattern:          nil,
 		subscribersRWMut: sync.RWMutex{},
 		subscribers:      make(map[*net.Conn]*resp.Conn),
-		messageChan:      &messageChan,
 	}
 
 	for _, option := range options {
@@ -61,30 +56,6 @@ func NewChannel(options ...func(channel *Channel)) *Channel {
 	}
 
 	return channel
-}
-
-func (ch *Channel) Start() {
-	go func() {
-		for {
-			message := <-*ch.messageChan
-
-			ch.subscribersRWMut.RLock()
-
-			for _, conn := range ch.subscribers {
-				go func(conn *resp.Conn) {
-					if err := conn.WriteArray([]resp.Value{
-						resp.StringValue("message"),
-						resp.StringValue(ch.name),
-						resp.StringValue(message),
-					}); err != nil {
-						log.Println(err)
-					}
-				}(conn)
-			}
-
-			ch.subscribersRWMut.RUnlock()
-		}
-	}()
 }
 
 func (ch *Channel) Name() string {
@@ -115,8 +86,12 @@ func (ch *Channel) Unsubscribe(conn *net.Conn) bool {
 	return true
 }
 
-func (ch *Channel) Publish(message string) {
-	*ch.messageChan <- message
+// HasSubscriber reports whether the connection is subscribed to this channel.
+func (ch *Channel) HasSubscriber(conn *net.Conn) bool {
+	ch.subscribersRWMut.RLock()
+	defer ch.subscribersRWMut.RUnlock()
+	_, ok := ch.subscribers[conn]
+	return ok
 }
 
 func (ch *Channel) IsActive() bool {
